@@ -29,6 +29,7 @@ Ids == 1..MaxId
 NoNode == 0
 AllNames == <<"a", "b", "c", "d">>
 AllStrs == << <<"x">>, <<"y", "x">>, <<>>, <<"y">>, <<"x", "x", "y">> >>   \* strings are sequences of 1-char strings
+BadName == "1x"                      \* not an XML Name: operations taking a name must refuse it
 NameSeq == SubSeq(AllNames, 1, NNames)
 Strs == {AllStrs[i] : i \in 1..NStrs}
 Names == {NameSeq[i] : i \in 1..Len(NameSeq)}
@@ -97,8 +98,14 @@ NewNode(k, d, nm, s) ==
     /\ data' = [data EXCEPT ![nextId] = s]
     /\ UNCHANGED <<parent, kids, attrs, ownerEl>>
 
-CreateElement(d, nm) == kind[d] = "doc" /\ NewNode("elem", d, nm, <<>>) /\ Done("createElement", <<d>>, nm, <<>>, {"ok"})
-CreateAttribute(d, nm) == kind[d] = "doc" /\ NewNode("attr", d, nm, <<>>) /\ Done("createAttribute", <<d>>, nm, <<>>, {"ok"})
+CreateElement(d, nm) ==
+    /\ kind[d] = "doc"
+    /\ IF nm = BadName THEN Fail("createElement", <<d>>, nm, <<>>, {"INVALID_CHARACTER_ERR"})
+       ELSE NewNode("elem", d, nm, <<>>) /\ Done("createElement", <<d>>, nm, <<>>, {"ok"})
+CreateAttribute(d, nm) ==
+    /\ kind[d] = "doc"
+    /\ IF nm = BadName THEN Fail("createAttribute", <<d>>, nm, <<>>, {"INVALID_CHARACTER_ERR"})
+       ELSE NewNode("attr", d, nm, <<>>) /\ Done("createAttribute", <<d>>, nm, <<>>, {"ok"})
 CreateText(d, s) == kind[d] = "doc" /\ NewNode("text", d, "", s) /\ Done("createTextNode", <<d>>, "", s, {"ok"})
 CreateCData(d, s) == kind[d] = "doc" /\ NewNode("cdata", d, "", s) /\ Done("createCDATASection", <<d>>, "", s, {"ok"})
 CreateComment(d, s) == kind[d] = "doc" /\ NewNode("comment", d, "", s) /\ Done("createComment", <<d>>, "", s, {"ok"})
@@ -252,6 +259,7 @@ AdoptNode(d, n) ==
 
 SetAttribute(e, nm, s) ==
     /\ kind[e] = "elem"
+    /\ nm # BadName
     /\ LET a == AttrByName(e, nm) IN
        IF a # 0 THEN /\ data' = [data EXCEPT ![a] = s]
                      /\ UNCHANGED <<kind, owner, parent, kids, name, attrs, ownerEl, nextId>>
@@ -264,6 +272,60 @@ SetAttribute(e, nm, s) ==
             /\ ownerEl' = [ownerEl EXCEPT ![nextId] = e]
             /\ UNCHANGED <<parent, kids>>
     /\ Done("setAttribute", <<e>>, nm, s, {"ok"})
+
+SetAttributeBadName(e, s) ==
+    kind[e] = "elem" /\ Fail("setAttribute", <<e>>, BadName, s, {"INVALID_CHARACTER_ERR"})
+
+\* renameNode(n, null namespace, nm): elements and attributes keep their identity; an attached Attr is taken
+\* out of its element's map, renamed and put back (replacing an attribute that already has the new name).
+RenameNode(d, n, nm) ==
+    /\ kind[d] = "doc"
+    /\ LET errs == (IF owner[n] # d THEN {"WRONG_DOCUMENT_ERR"} ELSE {})
+                   \cup (IF kind[n] \notin {"elem", "attr"} THEN {"NOT_SUPPORTED_ERR"} ELSE {})
+                   \cup (IF nm = BadName THEN {"INVALID_CHARACTER_ERR"} ELSE {})
+       IN IF errs # {} THEN Fail("renameNode", <<d, n>>, nm, <<>>, errs)
+          ELSE /\ name' = [name EXCEPT ![n] = nm]
+               /\ IF kind[n] = "attr" /\ ownerEl[n] # 0
+                  THEN LET e == ownerEl[n]
+                           b == AttrByName(e, nm)
+                       IN IF b # 0 /\ b # n
+                          THEN /\ attrs' = [attrs EXCEPT ![e] = @ \ {b}]
+                               /\ ownerEl' = [ownerEl EXCEPT ![b] = 0]
+                          ELSE UNCHANGED <<attrs, ownerEl>>
+                  ELSE UNCHANGED <<attrs, ownerEl>>
+               /\ UNCHANGED <<kind, owner, parent, kids, data, nextId>>
+               /\ Done("renameNode", <<d, n>>, nm, <<>>, {"ok"})
+
+\* renameNode(n, "u", "p:" nm) on a node created without namespace: a NEW node takes over (children, attributes,
+\* position in the parent / in the owner element's map); the old node stays behind, detached and empty.
+QName(nm) == "p:" \o nm
+RenameNodeNS(d, n, nm) ==
+    /\ kind[d] = "doc"
+    /\ LET errs == (IF owner[n] # d THEN {"WRONG_DOCUMENT_ERR"} ELSE {})
+                   \cup (IF kind[n] \notin {"elem", "attr"} THEN {"NOT_SUPPORTED_ERR"} ELSE {})
+                   \cup (IF nm = BadName THEN {"INVALID_CHARACTER_ERR", "NAMESPACE_ERR"} ELSE {})
+           x == nextId
+       IN IF errs # {} THEN Fail("renameNodeNS", <<d, n>>, nm, <<>>, errs)
+          ELSE /\ Fresh
+               /\ kind' = [kind EXCEPT ![x] = kind[n]]
+               /\ owner' = [owner EXCEPT ![x] = d]
+               /\ name' = [name EXCEPT ![x] = QName(nm)]
+               /\ IF kind[n] = "elem"
+                  THEN /\ kids' = [m \in Ids |-> IF m = x THEN kids[n] ELSE IF m = n THEN <<>>
+                                                  ELSE IF m = parent[n] /\ parent[n] # 0 THEN Splice(kids[m], IndexOf(kids[m], n), 1, <<x>>)
+                                                  ELSE kids[m]]
+                       /\ parent' = [m \in Ids |-> IF m = x THEN parent[n] ELSE IF m = n THEN 0
+                                                    ELSE IF m \in Range(kids[n]) THEN x ELSE parent[m]]
+                       /\ attrs' = [attrs EXCEPT ![x] = attrs[n], ![n] = {}]
+                       /\ ownerEl' = [m \in Ids |-> IF m \in attrs[n] THEN x ELSE ownerEl[m]]
+                       /\ data' = data
+                  ELSE LET e == ownerEl[n]
+                           b == IF e = 0 THEN 0 ELSE AttrByName(e, QName(nm))      \* same expanded name already there: replaced
+                       IN /\ data' = [data EXCEPT ![x] = data[n], ![n] = <<>>]
+                          /\ attrs' = IF e = 0 THEN attrs ELSE [attrs EXCEPT ![e] = ((@ \ {n}) \ {b}) \cup {x}]
+                          /\ ownerEl' = [m \in Ids |-> IF m = x THEN e ELSE IF m = n \/ (b # 0 /\ m = b) THEN 0 ELSE ownerEl[m]]
+                          /\ UNCHANGED <<kids, parent>>
+               /\ Done("renameNodeNS", <<d, n>>, nm, <<>>, {"ok"})
 
 RemoveAttribute(e, nm) ==
     /\ kind[e] = "elem"
@@ -378,6 +440,9 @@ OpNext ==
     \/ \E d \in Docs, n \in Live : AdoptNode(d, n)
     \/ \E e \in Live, nm \in Names, s \in Strs : SetAttribute(e, nm, s)
     \/ \E e \in Live, nm \in Names : RemoveAttribute(e, nm)
+    \/ \E d \in Docs : CreateElement(d, BadName) \/ CreateAttribute(d, BadName)
+    \/ \E e \in Live, s \in Strs : SetAttributeBadName(e, s)
+    \/ \E d \in Docs, n \in Live, nm \in Names \cup {BadName} : RenameNode(d, n, nm) \/ RenameNodeNS(d, n, nm)
     \/ \E e \in Live, a \in Live : SetAttributeNode(e, a) \/ RemoveAttributeNode(e, a)
     \/ \E n \in Live, s \in Strs : SetData(n, s) \/ AppendData(n, s)
     \/ \E n \in Live, off \in 0..(MaxData + 1), s \in Strs : InsertData(n, off, s)
